@@ -11,6 +11,7 @@ claimed["C08"] = ("every packet-header decoder executed symbolically on an arbit
 claimed["C06"] = ("every encodable kind built through its constructors with symbolic field values and executed symbolically: reported size == bytes produced (decided by SMT for all field values); every container (match, set-field, reg_load2, instruction, bucket, group-mod, flow-mod, packet-out, conntrack, learn, vendor, bundle, multipart; Ethernet, IPv4, IPv6 + extension headers, hop-by-hop, IGMPv3, DHCP) holds its children whole, in order, with zero padding, for <= 2 (quick) / 3 (thorough) real children and for generic children of arbitrary size 0..16/24 with arbitrary bytes", "4 C06")
 claimed["C01"] = ("every controller-originated message kind built through the API with symbolic field values (all 256 flow-mod commands, all 65536 group-mod commands), lists of <= 2 elements, payload <= 8/16 B: version byte, type code, header length == bytes == Len() decided by SMT; bundle-add wrapping each kind checks the embedded frame as well", "4 C01")
 claimed["C13"] = ("every encodable kind (44 match fields, 27 actions, instructions, buckets, learn specs, 21 message kinds, bundle/vendor wrappers, 16 packet-header kinds, IPv4 with unset IHL) under every sequence of <= 3 (quick) / 4 (thorough) Len/MarshalBinary calls: all sizes agree, all encodings agree byte for byte, size == len(encoding), decided by SMT over all field values", "4 C13")
+claimed["C09"] = ("every packet-header kind built well-formed with symbolic field values (all values of every packed 8/16/32-bit group at once): encode, decode, compare fields, re-encode, size == bytes consumed; packed groups compared with the RFC bit layouts; payload decoder chosen by ethertype (tagged and untagged forms of the same symbolic frame), IPv4 protocol and IPv6 next-header chains (8 chain orders quick / 16 thorough); DHCP and LLDP TLV round trips; payload <= 8/16 B, <= 2/3 options, sources, records; header-extension lengths 0,1,31,32(,255)", "4 C09")
 pending = {}
 allp = [json.loads(l)["id"] for l in open("/verif/properties.jsonl")]
 TRUST = "go/ssa lowering, gc compiler, Go runtime, SMT solvers (z3 4.8.12 decides; z3 5.1.0 and cvc5 1.0 cross-check sampled verdict queries), the environment stubs listed in each evidence file; nothing outside the per-harness bounds in DESIGN.md §4"
